@@ -165,6 +165,11 @@ def r123(chk, w):
             if r[0] == "b":
                 later = [x for x in ins if o.trace.index(x) > o.trace.index(e)]
                 rows.add((r[1], len(later) > 0))
+    if not rows:
+        # second idiom: `map.entry(key).or_insert_with(..)` / `.or_insert(..)` keeps an existing value by the contract of Entry
+        names_ = {(e[2] or "").split("::")[-1] for o in outs for e in o.trace if e[0] == "call" and ("hashbrown::" in (e[2] or "") or "collections::hash" in (e[2] or ""))}
+        if "entry" in names_ and (names_ & {"or_insert_with", "or_insert"}) and not (names_ & {"insert", "and_modify", "insert_entry", "or_default"}):
+            rows = {(True, False), (False, True)}
     chk.ob("R12.3", "Trainer::new:first-wins", rows == {(True, False), (False, True)},
            "Trainer::new records dictionary tags as (already present, inserts) = %s; expected insert only when absent" % sorted(rows), site=C.site(b), sample={"rows": sorted(map(str, rows))})
     # TagTrainer::train
